@@ -147,6 +147,7 @@ func (h *harness) unquotedValues() {
 	for _, c := range h.bareCases() {
 		switch {
 		case c.mech:
+			h.bareMech = append(h.bareMech, c)
 			// options of mechanisms one by one (a catalogue reports its first error only), over another value in the file
 			values := []string{"12345", "true", "1e3"}
 			if c.template {
@@ -161,6 +162,7 @@ func (h *harness) unquotedValues() {
 			enumerated = append(enumerated, c) // the schema enumerates the values: none of the texts is a valid value
 		}
 	}
+	h.bareStatic = static
 	r.Count("unquoted_value_static_string_options_free_text", len(static))
 	r.Count("unquoted_value_static_string_options_enumerated", len(enumerated))
 	// all free-text options of the static configuration take the text in one load; they are separated when that load fails
